@@ -203,6 +203,9 @@ func init() {
 				emit(c, ";", "O", "0", ";", "O", "0", ";", "C", "0", ";", "C", "0", ";", "C", "0")
 				emit(c, ";", "O", "0", ";", "D", "0", ";", "D", "0", ";", "O", "0", ";", "D", "0")
 				emit(c, ";", "C", "1", ";", "F", "1", ";", "O", "1", ";", "C", "1", ";", "O", "1", ";", "C", "1")
+				// a failed and a cached OpenDB re-arm Drop (two OpenDB calls, two drops of one store)
+				emit(c, ";", "O", "0", ";", "C", "0", ";", "D", "0", ";", "F", "0", ";", "D", "0", ";", "D", "0")
+				emit(c, ";", "O", "0", ";", "D", "0", ";", "O", "0", ";", "D", "0", ";", "D", "0")
 			}
 			// exhaustive: all sequences of length <= depth over {O,C,D} x 2 names (+F on one name)
 			depth := 4
